@@ -15,13 +15,16 @@ from . import simlog as L
 
 def _one(job):
     idx, scj, nfail = job
+    cmd = "EPCTLFAIL"
+    if isinstance(nfail, tuple):
+        cmd, nfail = nfail
     from .props import c15
     sc = D.Scenario.from_json(scj)
     tail, pconn = c15.probe_steps(sc)
     sc2 = D.Scenario(sc.steps + tail, sc.variant, sc.users, sc.groups, sc.name)
     lines, smap = D.simk_script(sc2)
     # the listeners' registrations happen before the script starts; the counter counts ADDs from the first script line on
-    script = (["EPCTLFAIL %d" % nfail] if nfail else []) + lines
+    script = (["%s %d" % (cmd, nfail)] if nfail else []) + lines
     args, pw = [], None
     if sc.users:
         sc2.groups = dcheck.groups_in_file_order(sc2)
@@ -40,7 +43,7 @@ def _one(job):
     fails = []
     if res["sanitizer"]:
         fails.append("sanitizer: " + res["sanitizer"])
-    fired = [l for l in res["lines"] if l.startswith("EPCTLFAILED")]
+    fired = [l for l in res["lines"] if l.startswith("EPCTLFAILED")] or [l + " timer" for l in res["lines"] if l.startswith("TIMERFAILED")]
     for f in log.faults:
         # the close path removes the descriptor from the loop without knowing that its registration failed: the kernel answers
         # ENOENT, the descriptor is the daemon's own and open — not a hygiene matter
@@ -48,6 +51,7 @@ def _one(job):
             continue
         fails.append("hygiene: " + f[:140])
     adds = sum(1 for l in res["lines"] if l.startswith("EPCTL add") or l.startswith("EPCTLFAILED"))
+    timers = sum(1 for l in res["lines"] if (l.startswith("TIMER ") and l.endswith(" create")) or l.startswith("TIMERFAILED"))
     if log.runio_ret != 0:
         fails.append("event loop ended (run_io returned %s)" % log.runio_ret)
     fin = log.final
@@ -59,7 +63,7 @@ def _one(job):
     pc = log.conns.get(pconn)
     if (pc is None or b'"alive"' not in pc.out) and not (fired and fired[0].split()[1] in ("c%d" % pconn, "c%d" % (pconn - 1))):
         fails.append("the daemon no longer serves new connections after the failed registration")
-    return {"idx": idx, "name": sc.name, "nfail": nfail, "fails": fails, "fired": fired[0].split()[1] if fired else None, "adds": adds,
+    return {"idx": idx, "name": sc.name, "nfail": nfail, "fails": fails, "fired": fired[0].split()[1] if fired else None, "adds": adds, "timers": timers,
             "script": script if fails else None, "stderr": res["stderr"][-2000:] if fails else ""}
 
 
@@ -75,6 +79,8 @@ def run_epctl_enum(ctx, out, prop="C07"):
     for i, (sc, b) in enumerate(zip(scs, base)):
         for n in range(1, b["adds"] + 2):
             jobs.append((i, sc.to_json(), n))
+        for n in range(1, b["timers"] + 2):          # and every creation of a timer descriptor (EMFILE)
+            jobs.append((i, sc.to_json(), ("TIMERFAIL", n)))
     bad = [r for r in base if r["fails"]]
     kinds = collections.Counter()
     fired = 0
@@ -86,7 +92,7 @@ def run_epctl_enum(ctx, out, prop="C07"):
             if r["fails"]:
                 bad.append(r)
     for r in bad[:3]:
-        out.violation("failed epoll registration %s (%s) in scenario %s: %s" % (r["nfail"], r["fired"], r["name"], "; ".join(r["fails"][:3])),
+        out.violation("failed registration / timer creation %s (%s) in scenario %s: %s" % (r["nfail"], r["fired"], r["name"], "; ".join(r["fails"][:3])),
                       {"property": prop, "scenario": r["name"], "epoll_ctl_add_failure_index": r["nfail"], "failed_registration_of": r["fired"],
                        "simk_script": r["script"], "failures": r["fails"], "sanitizer_stderr": r["stderr"]})
     out.coverage.update({"epctl_enum_runs": len(jobs) + len(base), "epctl_enum_faults_fired": fired, "epctl_enum_failed_kinds": dict(kinds),
